@@ -160,6 +160,8 @@ struct Prog {
       }
     } else {
       if (kind == "absjmp") e = (variant & 1) ? aa.bl(Imm(target)) : aa.b(Imm(target));
+      else if (kind == "absadr") e = aa.adr(a64::x10, Imm(target));
+      else if (kind == "absadrp") e = aa.adrp(a64::x10, Imm(target));
     }
     size_t len = cur_off() - at;
     w.beginObj().kv("e", "AbsRef").kv("kind", kind).kv("sec", sec + 1).kv("at", at).kv("len", len).kv("variant", variant).kv("form", form).kv("r", err_name(e)).kv("unres", unres());
@@ -340,6 +342,15 @@ static void run_program(FILE* out, vj::Rng& r, unsigned idx, unsigned max_action
       }
       if (arch == Arch::kAArch64) t &= ~uint64_t(3);
       if (arch == Arch::kX86) t &= 0xFFFFFFFFu;
+      if (arch == Arch::kAArch64 && r.chance(2, 5)) {
+        // adr / adrp with an absolute target: adrp works on pages, asmjit accepts page-aligned targets (base known) or
+        // page-multiple distances (base assigned at relocation); anything else must be refused, not mis-encoded
+        bool page = r.chance(2, 3);
+        if (page) { if (r.chance(3, 4)) t &= ~uint64_t(0xFFF); }
+        else if (r.chance(1, 2)) t = base + 0x800 + r.below(0x100000) * 4;       // adr: +-1 MiB
+        p.absref(page ? "absadrp" : "absadr", t, (unsigned)r.below(18));
+      }
+      else
       p.absref((arch == Arch::kX64 && r.chance(1, 3)) ? "absmem" : "absjmp", t, (unsigned)r.below(18));
     }
     else if (c < 72) {
